@@ -285,6 +285,13 @@ def gen_table(rng, idx, native=False, allow_transposed=True, n_row=None):
             return v
         return rng.choice(LEGAL[k])
     data = [[cell(k, j) for j, k in enumerate(kinds)] for _ in range(n_row)]
+    if n_row >= 60:
+        # long tables: most numeric columns of real files hold plain numbers only, in one spelling style
+        for j, k in enumerate(kinds):
+            if k == "num" and rng.random() < 0.7:
+                plain = rng.choice([["0", "1", "-1", "1.5", "2.25", "100"], ["1", "2", "3"], ["0.5", "1e3", "-2.75"]])
+                for r in data:
+                    r[j] = rng.choice(plain)
     return {"name": f"t{idx}", "transposed": transposed, "kinds": kinds, "names": names, "units": units, "data": data}
 
 
@@ -296,7 +303,8 @@ def inject(rng, tab, native=False, p_defect=0.75):
         return d
     cands = [(i, j) for i in range(n_row) for j in range(n_col) if tab["kinds"][j] != "text"]
     rng.shuffle(cands)
-    for (i, j) in cands[: rng.choice([0, 1, 1, 2, 3])]:
+    long = n_row >= 60
+    for (i, j) in cands[: rng.choice([2, 3, 4, 6] if long else [0, 1, 1, 2, 3])]:
         k = tab["kinds"][j]
         if native and rng.random() < 0.35:
             v = rng.choice(ILLEGAL_NATIVE[k])
@@ -307,7 +315,7 @@ def inject(rng, tab, native=False, p_defect=0.75):
             r = rng.random()
             if r < 0.12:
                 d["illegal"][(i, j)] = rng.choice(ODD_TEXT[k])
-            elif r < 0.22 and j > 0 and not tab["transposed"]:
+            elif r < (0.4 if long else 0.22) and j > 0 and not tab["transposed"]:
                 d["illegal"][(i, j)] = rng.choice(BLANK_TEXT)      # (a blank first cell would end the block)
             else:
                 d["illegal"][(i, j)] = rng.choice(ILLEGAL[k])
